@@ -585,8 +585,9 @@ impl Snap {
             if raw_type_id != TYPE_ID_EX {
                 break;
             }
-            // Make sure we'll have space for at least 256 additional extended types.
-            if id < next_type_id + 256 {
+            // Only IDs in the range of extended type IDs count. Make sure
+            // we'll have space for at least 256 additional extended types.
+            if (OFFSET_EXTENDED_TYPE_ID..0x8000).contains(&id) && id < next_type_id + 256 {
                 next_type_id = id + 1;
             }
         }
@@ -910,7 +911,10 @@ impl Builder {
                     btree_map::Entry::Vacant(v) => {
                         let raw_type_id = self.next_type_id;
                         assert!(OFFSET_EXTENDED_TYPE_ID <= raw_type_id, "invalid type ID");
-                        assert!(raw_type_id < 0x8000, "invalid type ID");
+                        if raw_type_id >= 0x8000 {
+                            // All extended type IDs are used up.
+                            return Err(BuilderError::TooManyItems);
+                        }
                         self.snap.raw.add_item(
                             TYPE_ID_EX,
                             raw_type_id,
